@@ -9,7 +9,7 @@ import copy
 import io
 
 from vpkg import alpha, pj
-from vpkg.hutil import fin, notrace
+from vpkg.hutil import begin, fin, notrace
 from vpkg.ref import jelly as R
 from vpkg.ref import wire
 from vpkg.terms import norm_item
@@ -280,7 +280,7 @@ def hostile_row(kind, v, depth, phys):
     if kind == "options":
         return ("options", opt)
     if kind == "options2":
-        return ("options", dict(opt, max_name_table_size=v, max_prefix_table_size=v, physical_type=(v % 5), version=v % 4))
+        return ("options", dict(opt, max_name_table_size=v, max_prefix_table_size=v, physical_type=(v % 5), version=v % 4 if v < 4096 else v))
     if kind in ("name", "prefix", "datatype"):
         return (kind, v, "val")
     iri = ("iri", v, v)
@@ -325,6 +325,9 @@ def hostile(k2: int, k3: int, v: int, depth: int, lie: int, opt: bool) -> bool:
         vs = [alpha.pick(v, HOSTILE_IDS) for v in (v1, v2, v3)]
         d = alpha.pick(depth, DEPTHS)
         li = alpha.pick(lie, LIES)
+        opt = True if opt else False
+        # concrete copies of the (now pinned) inputs: a hang from here on can be replayed natively
+        begin(M, k2=KINDS.index(ks[1]), k3=KINDS.index(ks[2]), v=HOSTILE_IDS.index(vs[0]), depth=DEPTHS.index(d), lie=LIES.index(li), opt=opt)
         with notrace():
             data = hostile_bytes(ks, vs, d, li, phys, bool(opt))
         ok = True
